@@ -227,6 +227,15 @@ def run_ec_keys(case, o: Oracle) -> None:
             # the same key written by `cryptography` directly (what openssl-made key files look like)
             data = (K.private_pem if enc == "PEM" else K.private_der)(ck, pw.encode("utf-8") if pw else None)
             o.eq("ec_private", "foreign_pkcs8:" + enc, PrivateKey.parse(data, password=pw).d, d)
+    with o.spsdk("ec_private", "foreign_sec1"):
+        # SEC1 / "EC PRIVATE KEY" as written by `openssl ecparam -genkey` (PEM may be encrypted, DER can not)
+        from cryptography.hazmat.primitives import serialization as ser
+
+        enc_alg = ser.BestAvailableEncryption(pw.encode("utf-8")) if pw else ser.NoEncryption()
+        data = ck.private_bytes(ser.Encoding.PEM, ser.PrivateFormat.TraditionalOpenSSL, enc_alg)
+        o.eq("ec_private", "foreign_sec1:PEM", PrivateKeyEcc.parse(data, password=pw).d, d)
+        data = ck.private_bytes(ser.Encoding.DER, ser.PrivateFormat.TraditionalOpenSSL, ser.NoEncryption())
+        o.eq("ec_private", "foreign_sec1:DER", PrivateKey.parse(data).d, d)
     with o.spsdk("ec_private", "default_export"):
         o.eq("ec_private", "default_export", PrivateKey.parse(sk.export()).d, d)
     with o.spsdk("ec_private", "inequality"):
@@ -339,6 +348,12 @@ def run_rsa_keys(case, o: Oracle) -> None:
             o.check("rsa_private", got == sk and sk == got, "eq:" + name)
         ep = extract_public_key_from_data(data, pw)
         o.eq("rsa_private", "extract_public", (ep.n, ep.e), (n, e))
+    if enc == "PEM" and not pw:
+        with o.spsdk("rsa_private", "foreign_pkcs1"):
+            from cryptography.hazmat.primitives import serialization as ser
+
+            data = ck.private_bytes(ser.Encoding.PEM, ser.PrivateFormat.TraditionalOpenSSL, ser.NoEncryption())
+            o.eq("rsa_private", "foreign_pkcs1", PrivateKeyRsa.parse(data).key.private_numbers().d, dd)
     with o.spsdk("rsa_private", "inequality"):
         other = PrivateKeyRsa(other_ck)
         o.check("rsa_private", not (sk == other), "eq_other_key")
@@ -400,7 +415,8 @@ def _ec_sign_case():
         "flip_s": st.integers(0, 1 << 24),
         "other": st.integers(1, 1 << 200),
         "other_curve": st.sampled_from(CURVES),
-        "sp": st.sampled_from([None, None, "file", "config"]),
+        "sp": st.sampled_from([None, None, "file", "config", "local"]),
+        "sp_pw": st.sampled_from([None, "c08 Secret-1", "hesložluťoučký-密码"]),
     })
 
 
@@ -476,17 +492,21 @@ def run_ec_sign(case, o: Oracle) -> None:
             o.check("ecdsa_sound", opub.verify_signature(sig, data, **okw) is False, "other_key_accepted", "%s d=%x" % (oc, od))
     # ---- signature provider (normalises to raw r||s unless another encoding is asked for)
     if case["sp"] and not prehashed:
-        from spsdk.crypto.signature_provider import PlainFileSP, SignatureProvider
+        from spsdk.crypto.signature_provider import PlainFileSP, SignatureProvider, get_signature_provider
 
-        with o.spsdk("provider", "ecdsa"):
+        with o.spsdk("provider", "ecdsa:" + case["sp"]):
             path = _scratch("sp-ec.pem")
-            sk.save(path)
+            sp_pw = case.get("sp_pw")
+            sk.save(path, password=sp_pw)
+            halg = _alg(alg) if alg else None
             if case["sp"] == "file":
-                sp = PlainFileSP(path, hash_alg=_alg(alg) if alg else None)
+                sp = PlainFileSP(path, password=sp_pw, hash_alg=halg)
+            elif case["sp"] == "local":  # what `nxpcrypto signature create -k key -p password` builds
+                sp = get_signature_provider(local_file_key=path, password=sp_pw, hash_alg=halg, pss_padding=False)
             else:
-                sp = SignatureProvider.create("type=file;file_path=%s" % path)
+                sp = SignatureProvider.create("type=file;file_path=%s%s" % (path, ";password=%s" % sp_pw if sp_pw else ""))
                 if alg:
-                    sp.hash_alg = _alg(alg)
+                    sp.hash_alg = halg
             o.eq("provider", "signature_length", sp.signature_length, 2 * size)
             o.check("provider", sp.verify_public_key(pub) is True, "verify_public_key")
             for want_enc in (None, "NXP", "DER"):
